@@ -52,9 +52,9 @@ def run_case(case, R):
 def _relations(R, cf_theta, survival, spread, wit, tag):
     rec, t = wit["recovery"], wit["t"]
     R.hit("relation_checks")
-    if abs(survival - math.exp(-t * cf_theta)) > 1e-13:
+    if not (abs(survival - math.exp(-t * cf_theta)) <= 1e-13):
         R.violation(f"{tag}-survival-not-exp", f"survival {survival!r} vs exp(-t theta) = {math.exp(-t * cf_theta)!r}", wit)
-    if abs(spread - (1 - rec) * cf_theta) > 1e-13 * (1 + cf_theta):
+    if not (abs(spread - (1 - rec) * cf_theta) <= 1e-13 * (1 + cf_theta)):
         R.violation(f"{tag}-spread-not-(1-R)theta", f"spread {spread!r} vs (1-R) theta = {(1 - rec) * cf_theta!r}", wit)
 
 
@@ -72,14 +72,14 @@ def _cds_expectation(R, model_r, theta, rec, T, spread, implied, wit, tag):
     R.hit("cds_expectation_checks")
     dleg = (1 - rec) * (1 - math.exp(-(model_r + theta) * T)) * theta / (model_r + theta)
     fleg = (1 - math.exp(-(model_r + theta) * T)) / (model_r + theta)
-    if abs(pv - (dleg - spread * fleg)) > 1e-9 * (1 + abs(dleg)):
+    if not (abs(pv - (dleg - spread * fleg)) <= 1e-9 * (1 + abs(dleg))):
         R.violation(f"{tag}-cds-expectation", f"E[CDS payoff] df(T) = {pv!r} by quadrature, default leg - spread * fixed leg = {dleg - spread * fleg!r}", wit)
     if not (-4.9 < spread < 9.9):
         R.skip("spread outside the search interval of implied_cds_spread")
         return
     s_back = implied(pv)
     R.hit("inverse_roundtrips")
-    if abs(s_back - spread) > 1e-8 * (1 + abs(spread)):
+    if not (abs(s_back - spread) <= 1e-8 * (1 + abs(spread))):
         R.violation(f"{tag}-implied-spread-does-not-invert", f"implied_cds_spread(pv(spread = {spread!r})) = {s_back!r}", wit)
 
 
@@ -114,15 +114,15 @@ def _one(case, R, rng):
     al, br = W.activity_index(spec), W.density_breakpoints(spec)
     qd, e = Q.integrate_xn(dens, float(axis[0]), a, 0, br, al)
     R.hit("chain_vs_closed_form_1d")
-    if abs(below - cf_trunc) > 1e-12 * (1 + cf_trunc):
+    if not (abs(below - cf_trunc) <= 1e-12 * (1 + cf_trunc)):
         R.violation("1d-default-rate-vs-closed-form", f"rate of the states below the threshold {below!r}, closed form of the truncated model {cf_trunc!r}", wit)
-    if abs(below - qd) > 1e-8 * qd + 10 * e + 1e-13 * lam:
+    if not (abs(below - qd) <= 1e-8 * qd + 10 * e + 1e-13 * lam):
         R.violation("1d-default-rate-vs-quadrature", f"rate of the states below the threshold {below!r}, quadrature mass of (l, a) {qd!r}", wit)
     cf = CFLevyModel(model)
     theta = float(cf._theta(a))
     qfull, e2 = Q.integrate_xn(dens, -math.inf, a, 0, br, al)
     R.hit("closed_form_vs_inclusion_exclusion")
-    if abs(theta - qfull) > 1e-8 * qfull + 10 * e2 + 1e-13:
+    if not (abs(theta - qfull) <= 1e-8 * qfull + 10 * e2 + 1e-13):
         R.violation("1d-theta-vs-quadrature", f"theta = {theta!r}, quadrature mass of (-inf, a) = {qfull!r}", wit)
     R.hit("monotonicity_checks")
     a2 = a * 0.9
@@ -206,18 +206,18 @@ def _nd(case, R, rng):
     theta_box = incl_excl([tr[0] for tr in trunc], [tr[1] for tr in trunc])
     R.hit("chain_vs_region_mass_nd")
     tol = 1e-7 * lam + 100 * oracle.max_err
-    if abs(default_rate - theta_box) > tol:
+    if not (abs(default_rate - theta_box) <= tol):
         R.violation(f"nd-default-rate-vs-region-mass-{'sym' if case['sym'] else 'asym'}-{d}d", f"{label}: total rate of the chain states with a coordinate "
                     f"below its threshold = {default_rate!r}, Levy mass of the default region inside the box (inclusion-exclusion) = {theta_box!r}", wit)
     cf = CFLevyCopulaModel(model)
     theta = float(cf._theta(levels))
     theta_ref = incl_excl([-math.inf] * d, [math.inf] * d)
     R.hit("closed_form_vs_inclusion_exclusion")
-    if abs(theta - theta_ref) > 1e-8 * (1 + theta_ref) + 100 * oracle.max_err:
+    if not (abs(theta - theta_ref) <= 1e-8 * (1 + theta_ref) + 100 * oracle.max_err):
         R.violation(f"nd-theta-vs-inclusion-exclusion-{d}d", f"{label}: closed-form theta = {theta!r}, inclusion-exclusion of the half-space masses "
                     f"= {theta_ref!r}", wit)
     outside = sum(abs(oracle.U(k, trunc[k][1])) + abs(oracle.U(k, trunc[k][0])) for k in range(d))
-    if abs(default_rate - theta) > outside + tol:
+    if not (abs(default_rate - theta) <= outside + tol):
         R.violation(f"nd-default-rate-vs-closed-form-{d}d", f"{label}: chain default rate {default_rate!r} vs closed form {theta!r}: gap larger than "
                     f"the mass outside the box ({outside!r})", wit)
     R.hit("monotonicity_checks")
